@@ -11,7 +11,7 @@ def tsan_eval(case, out):
 
 
 def check(run, tier, seed, replay):
-    compcheck.run(run, "C11", [Sub(gen_pool, ["pool", "poolseq", "image"], extra_eval=tsan_eval, only_extra=True)], tier, seed, replay,
+    compcheck.run(run, "C11", [Sub(gen_pool, ["pool", "poolseq", "image"], extra_eval=tsan_eval, only_extra=True)], tier, seed, replay, poolskel=True,
                   mode="tsan", timeout_case=120,
                   rule="ThreadSanitizer build of /repo's working tree: the real pool (W in {1,2,3,8}, 0..50 tasks, seeded sleeps) and real "
                        "multi-threaded block builds (1,2,3,8 threads, cuts from one string per block to one block); any TSan report or "
